@@ -1117,3 +1117,22 @@ dtwin('c05-stale-inverse-cache-forward-unaffected', 'C05', 'seeded/r3-C17-stale-
       why='only the inverse coefficient cache is stale: the forward map (C05) is unaffected')
 dtwin('c07-stale-inverse-cache-forward-unaffected', 'C07', 'seeded/r3-C17-stale-inverse-coefficient-cache/patch.diff',
       why='only the inverse coefficient cache is stale: the forward map (C07) is unaffected')
+
+# ----------------------------------------------------------------------------- everything kept under seeded/
+# every independently produced breaking change must make the checker of its own property fire, and every kept
+# behaviour-preserving refactoring must leave every checker silent
+import glob as _glob
+import os as _os
+import re as _re
+
+_VERIF = _os.path.dirname(_os.path.dirname(_os.path.abspath(__file__)))
+for _d in sorted(_glob.glob(_os.path.join(_VERIF, 'seeded', 'r[0-9]*-C[0-9][0-9]-*'))):
+    _m = _re.match(r'(r\d+)-(C\d\d)-(.*)', _os.path.basename(_d))
+    if _m and _os.path.exists(_os.path.join(_d, 'patch.diff')):
+        dfire(f'seed-{_m.group(1)}-{_m.group(2)}-{_m.group(3)}'[:60], _m.group(2),
+              _os.path.relpath(_os.path.join(_d, 'patch.diff'), _VERIF), None,
+              why='independently produced breaking change (seeded/' + _os.path.basename(_d) + ')')
+for _f in sorted(_glob.glob(_os.path.join(_VERIF, 'seeded', 'benign*', '*', '*.diff'))):
+    _rel = _os.path.relpath(_f, _VERIF)
+    dtwin('benign-' + _rel.replace('seeded/', '').replace('/', '-').replace('.diff', ''), '*', _rel,
+          why='independently produced behaviour-preserving refactoring')
